@@ -1,0 +1,67 @@
+//go:build verif
+
+// Contracts for the contract-based verification in /verif (comment-only file).
+
+package hiddenpath
+
+//@ import seg "github.com/scionproto/scion/pkg/segment"
+//@ import addr "github.com/scionproto/scion/pkg/addr"
+//@ import net "net"
+
+//@ # ---- C45: hidden segments are registered only by writers and served only to members.
+//@ # the configured group maps hold no nil groups (stated for the groups a request names)
+//@ macro member(peer, g) = (g.Owner == peer || inmap(g.Registries, peer) || inmap(g.Writers, peer) || inmap(g.Readers, peer))
+
+//@ func canRead
+//@   props C45
+//@   requires group != nil
+//@   modifies nothing
+//@   ensures result == member(peer, group)
+//@ func isAuthoritative
+//@   props C45
+//@   requires group != nil
+//@   modifies nothing
+//@   ensures result == inmap(group.Registries, localIA)
+
+//@ # call log (ghost) of the segment store: what was asked for / stored last, and what the lookup returned
+//@ ghost var getDst uint64
+//@ ghost var getCalls int
+//@ ghost var putCalls int
+//@ spec func segsVerified(segs []*seg.Meta, server net.Addr) bool uninterpreted
+//@ iface Verifier.Verify
+//@   modifies nothing
+//@   ensures result == nil ==> segsVerified(segments, server)
+//@ iface Store.Get
+//@   modifies getDst, getCalls
+//@   ensures getDst == uint64(arg1) && getCalls == old(getCalls) + 1
+//@ iface Store.Put
+//@   # only down segments are stored (the statement: registered segments are down segments)
+//@   requires forall i int :: 0 <= i && i < len(arg1) ==> arg1[i] != nil && arg1[i].Type == seg.TypeDown
+//@   modifies putCalls
+//@   ensures putCalls == old(putCalls) + 1
+
+//@ # Segments: the store is consulted - and its answer returned unchanged - only if every requested group exists,
+//@ # the requester may read it and this AS is a registry of it; with an empty group list nothing is served
+//@ func (AuthoritativeServer).Segments
+//@   props C45
+//@   requires s.DB != nil && forall i int :: 0 <= i && i < len(req.GroupIDs) && inmap(s.Groups, req.GroupIDs[i]) ==> s.Groups[req.GroupIDs[i]] != nil
+//@   modifies getDst, getCalls
+//@   loop 1 invariant 0 <= (rangeindex+1) && (rangeindex+1) <= len(req.GroupIDs) && getCalls == old(getCalls)
+//@   loop 1 invariant forall i int :: 0 <= i && i < (rangeindex+1) ==> inmap(s.Groups, req.GroupIDs[i]) && member(req.Peer, s.Groups[req.GroupIDs[i]]) && inmap(s.Groups[req.GroupIDs[i]].Registries, s.LocalIA)
+//@   ensures getCalls != old(getCalls) ==> len(req.GroupIDs) > 0 && getDst == uint64(req.DstIA) && getCalls == old(getCalls) + 1
+//@   ensures getCalls != old(getCalls) ==> forall i int :: 0 <= i && i < len(req.GroupIDs) ==> inmap(s.Groups, req.GroupIDs[i]) && member(req.Peer, s.Groups[req.GroupIDs[i]]) && inmap(s.Groups[req.GroupIDs[i]].Registries, s.LocalIA)
+//@   ensures result1 == nil ==> getCalls == old(getCalls) + 1
+//@   ensures getCalls == old(getCalls) ==> result1 != nil
+
+//@ # Register: segments are written to the store only if the group exists, the sender is a writer of it, this AS is
+//@ # a registry of it, every segment is a down segment and the segments verified against the sender
+//@ func (RegistryServer).Register
+//@   props C45
+//@   requires h.DB != nil && h.Verifier != nil && reg.Peer != nil && (inmap(h.Groups, reg.GroupID) ==> h.Groups[reg.GroupID] != nil)
+//@   requires forall i int :: 0 <= i && i < len(reg.Segments) ==> reg.Segments[i] != nil
+//@   modifies putCalls
+//@   loop 1 invariant 0 <= (rangeindex+1) && (rangeindex+1) <= len(reg.Segments) && putCalls == old(putCalls)
+//@   loop 1 invariant forall i int :: 0 <= i && i < (rangeindex+1) ==> reg.Segments[i].Type == seg.TypeDown
+//@   ensures putCalls != old(putCalls) ==> inmap(h.Groups, reg.GroupID) && inmap(h.Groups[reg.GroupID].Writers, reg.Peer.IA) && inmap(h.Groups[reg.GroupID].Registries, h.LocalIA)
+//@   ensures putCalls != old(putCalls) ==> forall i int :: 0 <= i && i < len(reg.Segments) ==> reg.Segments[i].Type == seg.TypeDown
+//@   ensures result == nil ==> putCalls == old(putCalls) + 1
